@@ -2141,6 +2141,32 @@ def _copy_aliases(fi, fn, name):
     return names, chain
 
 
+def _loop_exits(mod, loop):
+    """[(exit statement, [tests of the enclosing `if`s inside the loop, outermost first])] for every
+    way out of `loop` other than its header: `break` bound to this loop, `return` / `raise` anywhere
+    in its body (nested function definitions excluded)."""
+    out = []
+    todo = [(b, False) for b in loop.body]
+    while todo:
+        n, inner = todo.pop(0)
+        if isinstance(n, (ast.FunctionDef, ast.AsyncFunctionDef, ast.Lambda, ast.ClassDef)):
+            continue
+        if isinstance(n, (ast.Return, ast.Raise)) or (isinstance(n, ast.Break) and not inner):
+            tests, m = [], mod.parent.get(n)
+            while m is not None and m is not loop:
+                if isinstance(m, (ast.If, ast.IfExp)):
+                    tests.insert(0, m.test)
+                m = mod.parent.get(m)
+            out.append((n, tests))
+        nested = inner or isinstance(n, (ast.For, ast.While))
+        for c in ast.iter_child_nodes(n):
+            if isinstance(n, (ast.For, ast.While)) and c in n.orelse:
+                todo.append((c, inner))     # a break in the else suite of a nested loop leaves the outer one
+            else:
+                todo.append((c, nested))
+    return out
+
+
 def d5_ensemble(ck):
     rule = 'C16.D5.ensemble'
     mod = ck.repo.mod(SD)
@@ -2237,6 +2263,37 @@ def d5_ensemble(ck):
             verdict = ('far', 0, None)
         ck.decide(verdict, rule + '.steps', mod, loop, Q, u(loop.iter), 'n_steps - 1 multiplications (the start counts as step one)',
                   'the ensemble must be advanced exactly n_steps - 1 times')
+    # every exit of the propagation loop: the header is the ONLY stopping rule.  A break / return inside the loop makes
+    # the number of multiplications a function of something else: guarded by an APPROXIMATE comparison of the propagated
+    # state (allclose / isclose / an ordered comparison of a quantity computed from it) the propagation stops while the
+    # state still changes - definite; any other early exit (exact fixed point, a counter ...) is not decided.
+    seen_loops = []
+    for s in adv:
+        loop = loop_of(s)
+        if loop is None or any(loop is l for l in seen_loops):
+            continue
+        seen_loops.append(loop)
+        for ex, tests in _loop_exits(mod, loop):
+            state_dep = lambda e: any(n.id == P or any(d in adv for d in defs_of(fi, n)) for n in leaf_names(fi, e, stop=(P,)))
+            approx = None
+            for t in tests:
+                for x in ast.walk(t):
+                    if isinstance(x, ast.Call) and _last(x) in ('allclose', 'isclose') and any(state_dep(a) for a in x.args):
+                        approx = approx or x
+                    elif isinstance(x, ast.Compare) and any(isinstance(o, (ast.Lt, ast.LtE, ast.Gt, ast.GtE)) for o in x.ops) \
+                            and state_dep(x) and not isinstance(ex, ast.Raise):
+                        approx = approx or x
+            kind = {ast.Break: 'break', ast.Return: 'return', ast.Raise: 'raise'}[type(ex)]
+            if approx is not None and not isinstance(ex, ast.Raise):
+                ck.bad(rule + '.steps', mod, ex, Q, '%s under `%s` in the loop over %s' % (kind, _short(approx, 80), _short(loop.iter, 40)),
+                       'the propagation loop is left early (%s) when `%s` holds: that is a tolerance on the change of the populations, '
+                       'not the end of the requested steps; for a slowly relaxing chain the per-step change is below any such tolerance '
+                       'long before p0 T^n stops moving, so fewer than n_steps - 1 multiplications by T are performed and both the '
+                       'trajectory and the final populations differ from repeated left multiplication' % (kind, _short(approx, 80)))
+            else:
+                ck.missing(rule + '.steps', 'the propagation loop over %s has another exit (%s at %s%s): the number of '
+                           'multiplications is not decided' % (_short(loop.iter, 40), kind, mod.loc(ex),
+                                                               ' under `%s`' % _short(tests[-1], 60) if tests else ''))
     # start from a copy of the initial populations
     init = [s for s in assigns_to(fn, P) if isinstance(s, ast.Assign) and s not in adv]
     if len(init) != 1 or fi.def_value(init[0], P) is None:
@@ -3203,6 +3260,103 @@ def d4_request_domain(ck):
                  'for 3) is refused, no spectrum / implied timescales are returned' % (_short(r, 70), NE, hit[0] if hit else ''))
 
 
+# ---------------------------------------------------------------------------
+# D3 addition (seventh wave): derived views of the estimator are computed from its CURRENT state
+
+_MEMO_DECOS = ('cached_property', 'lru_cache', 'cache', 'cached', 'cachedmethod', 'memoize', 'memoized', 'memoise', 'memoised',
+               'lazy_property', 'lazyproperty', 'cached_method', 'threaded_cached_property')
+_PLAIN_DECOS = ('property', 'classmethod', 'staticmethod', 'setter', 'getter', 'deleter', 'abstractmethod', 'wraps')
+
+
+def _deco_name(d):
+    f = d.func if isinstance(d, ast.Call) else d
+    if isinstance(f, ast.Attribute):
+        return f.attr
+    return (u(f) or '').split('.')[-1]
+
+
+def d3_views_live(ck, mod, cls='MSM'):
+    """`config`, `result_`, `n_states_` ... are what save pickles / writes and
+    what __eq__ compares: each must be a function of the estimator's state AT
+    THE TIME OF THE ACCESS.  An accessor under a memoising decorator
+    (functools.cached_property stores the first value in the instance
+    dictionary, lru_cache / cache key on the identity of the estimator) that
+    reads an attribute some method of the class (re)binds - a constructor
+    parameter (set_params, attribute assignment), a fitted attribute (fit) -
+    hands out the state of the FIRST access ever after: VIOLATION.  A
+    memoised accessor whose inputs the rule cannot relate to such attributes,
+    a cache that some method clears, or a decorator the rule does not know:
+    not decided.  Also the module-level functions the property names must not
+    be memoised (not decided if they are)."""
+    rule = 'C16.D3.views-live'
+    methods = {q: f for q, f in mod.functions.items() if q.startswith(cls + '.') and '.<locals>.' not in q}
+    if cls + '.__init__' not in methods:
+        ck.missing(rule, 'methods of class %s' % cls)
+        return
+    init_ps = set(params(methods[cls + '.__init__'])[1:])
+    # attributes stored by any method: attr -> [method]
+    stored = {}
+    for q, f in methods.items():
+        ps = params(f)
+        if not ps:
+            continue
+        for s, attr, v, idx in attr_stores(f, ps[0]):
+            stored.setdefault(attr, []).append(q)
+    clears = [c for f in methods.values() for c in calls_in(f)
+              if _last(c) in ('cache_clear', '__delattr__', 'delattr') or
+              (_last(c) in ('pop', 'clear', 'update') and '__dict__' in u(c.func)) or
+              (call_name(c) == 'vars')]
+    dels = [t for f in methods.values() for s in walk_local(f) if isinstance(s, ast.Delete) for t in s.targets
+            if isinstance(t, ast.Attribute) or '__dict__' in u(t)]
+    n = 0
+    for q, f in sorted(methods.items()):
+        decos = [_deco_name(d) for d in f.decorator_list]
+        if not decos:
+            continue
+        n += 1
+        memo = [d for d in decos if d in _MEMO_DECOS]
+        other = [d for d in decos if d not in _MEMO_DECOS and d not in _PLAIN_DECOS]
+        construct = '%s %s' % (' '.join('@' + _short(d, 40) for d in f.decorator_list), q)
+        if other:
+            ck.missing(rule, 'decorator of %s not recognised: %s' % (q, ', '.join(other)))
+            continue
+        if not memo:
+            ck.ok(rule, mod, f, construct, 'computed from the current state on every access')
+            continue
+        ps = params(f)
+        me = ps[0] if ps else None
+        reads = sorted({x.attr for x in walk_local(f) if isinstance(x, ast.Attribute) and isinstance(x.ctx, ast.Load)
+                        and isinstance(x.value, ast.Name) and x.value.id == me})
+        rebound = [a for a in reads if a in init_ps or any(m != q for m in stored.get(a, ()))]
+        if me is None or 'classmethod' in decos or 'staticmethod' in decos or not rebound:
+            ck.missing(rule, '%s is memoised (%s): what the kept value depends on is not decided' % (q, memo[0]))
+            continue
+        if clears or dels:
+            ck.missing(rule, '%s is memoised (%s) and the class deletes / clears something (%s): invalidation is not decided' % (
+                q, memo[0], _short((clears + dels)[0], 60)))
+            continue
+        a = rebound[0]
+        how = 'a constructor parameter (rebound by set_params or attribute assignment before a refit)' if a in init_ps else \
+            'rebound by %s' % ', '.join(sorted(set(m for m in stored.get(a, ()) if m != q)))
+        ck.bad(rule, mod, f, q, construct,
+               '%s keeps the value of its FIRST evaluation (%s), but it reads `%s.%s`, %s; no method of %s invalidates the kept '
+               'value: after the first access (a save, print or ==) a change of the estimator followed by fit is not reflected, so '
+               'save writes - and __eq__ compares - a stale %s next to the newly fitted matrices and load(save(m)) is not equal '
+               'to the model that was fitted' % (q, 'functools.cached_property stores it in the instance dictionary'
+                                                  if memo[0] == 'cached_property' else '%s keys it on the estimator object' % memo[0],
+                                                  me, a, how, cls, q.split('.')[-1]))
+    ck.floor(rule, n, 1, 'decorated accessors of %s (config / result_ / n_states_)' % cls)
+    for m_, q_ in ((TM, 'eigenspectrum'), (TM, 'assigns_to_counts'), (TM, 'trim_disconnected'), (TS, 'implied_timescales'),
+                   (TS, 'calc_imp_times'), (SD, 'synthetic_ensemble')):
+        f = ck.repo.mod(m_).functions.get(q_)
+        if f is None:
+            continue
+        decos = [_deco_name(d) for d in f.decorator_list]
+        memo = [d for d in decos if d in _MEMO_DECOS]
+        if memo:
+            ck.missing(rule, '%s is memoised (%s): whether the key covers the contents of every argument is not decided' % (q_, memo[0]))
+
+
 def _guarded(ck, rule, f, *args):
     """An unexpected shape that makes a rule raise is an unrecognised
     construct (analysis incomplete), not an analysis error."""
@@ -3231,6 +3385,7 @@ def check(ck):
     _guarded(ck, 'C16.D3.save-load.files', d3_files, mod)
     _guarded(ck, 'C16.D3.save-load.shape', d3_shape, mod)
     _guarded(ck, 'C16.D3.save-load.overwrite', d3_overwrite, mod)
+    _guarded(ck, 'C16.D3.views-live', d3_views_live, mod)
     _guarded(ck, 'C16.D5.ensemble', d5_ensemble)
     _guarded(ck, 'C16.D5.ensemble.container', sparse_only_guarded, 'C16.D5.ensemble.container', ck.repo.mod(SD),
              ck.repo.mod(SD).func('synthetic_ensemble'), 'synthetic_ensemble')
